@@ -101,5 +101,23 @@ pub fn c16(o: &Opts) -> Outcome {
             }
         }
     }
+    // extreme but legal option values on ordinary and degenerate records
+    {
+        let recs = vec![b"ACGTACGTACGTTTGACC".to_vec(), b"AC".to_vec(), b"NNNNNNNN".to_vec()];
+        for (bs, bc) in [(1usize << 32, 5usize), (1 << 33, 7), ((1 << 32) - 1, 5), (5, 1), (usize::MAX / 2, 2)] {
+            let sc = Scratch::new("degen");
+            let inp = sc.path("in.fa"); let outd = sc.path("outd");
+            std::fs::create_dir_all(&outd).unwrap();
+            write_fasta(&inp, &recs);
+            let (i2, d2) = (inp.clone(), outd.clone());
+            cases += 1;
+            let r = guarded(move || { let mut c = coverage::CovComputer::new(i2, d2, 7, bs, bc); c.set_threads(2); c.build_table().unwrap(); c.compute_coverages(); });
+            let rows = std::fs::read_to_string(format!("{}/kmers.vectors", outd)).map(|t| t.matches('\n').count()).unwrap_or(0);
+            if r.is_err() || rows != recs.len() {
+                return Outcome { cases, witness: Some(vec![("sub".into(), "cov".into()), ("records".into(), recs.iter().map(|r| show(r)).collect::<Vec<_>>().join("|")), ("empty_file".into(), "false".into()), ("k".into(), "7".into()), ("w".into(), "0".into()),
+                    ("why".into(), format!("bin size {} / bin count {}: {} rows for {} records{}", bs, bc, rows, recs.len(), if r.is_err() { " (panic)" } else { "" }))]) };
+            }
+        }
+    }
     Outcome { cases, witness: None }
 }
